@@ -223,7 +223,7 @@ Q q_to_string()
     unsigned digits = 1; long long lim = 10;
     for (int k = 0; k < 10; k++) { if (a >= lim) digits++; lim *= 10; }
     unsigned chars = digits + (v < 0 ? 1u : 0u);
-    C05_CLAUSE(0, SITE_to_string_1, chars >= TSCAP);
+    C05_CLAUSE(0, SITE_to_string_1, chars > TSCAP);   // the text must fit in Capacity characters (a text of exactly Capacity characters fits: repaired by c50738f)
     C05_ALSO(SITE_basic_inplace_string_1);
     c05_arm(); k_to_string(out, v); c05_done();
     vf_assert(k_ts_size(out) == chars, "to_string(v).size() is the number of characters of the decimal text");
